@@ -222,7 +222,8 @@ Definition in_dom (F : facts) (i : ein) : bool :=
   | ILeft s n => floor_exact (f_left_floor F) || (0 <=? n)
   | IRight s n => floor_exact (f_right_floor F) || (0 <=? n)
   | ISubstr s p n => (0 <=? n) && ((1 <=? p) || (remap_exact (f_substr_remap F) && (0 <=? p)))
-  | ISoundex s => soundex_cfg_ok (f_soundex F) && starts_with_letter s && forallb (fun c => (0 <=? c) && (c <? 128)) s
+  | ISoundex s => soundex_cfg_ok (f_soundex F) && (sx_nonletter_first_unchanged (f_soundex F) || starts_with_letter s)
+                  && forallb (fun c => (0 <=? c) && (c <? 128)) s
   end.
 
 Open Scope string_scope.
